@@ -12,7 +12,7 @@ every possible next class) is checked on four routes against CPython:
      `import <mod>; t_K = <mod>.CK; c_K_XY = <mod>.CK.p_XY ...`.
   D  mro.GetBasesInMRO called on the classes of that stub as the loader
      resolved it, compared with CK.__mro__[1:].
-  M  mro.MROMerge called directly on the rows pytype builds (compute_mro shape
+  M  the row-level pipeline (mro.CheckDuplicateBases + mro.MROMerge) called directly on the rows pytype builds (compute_mro shape
      [[K]] + base MROs + [bases], GetBasesInMRO shape base MROs + [bases]),
      on a larger bound.
 
@@ -452,7 +452,7 @@ def pure_kinds(hier):
     for shape, rows, exp in (("compute_mro", [[k]] + base_rows + [last], want),
                              ("GetBasesInMRO", base_rows + [last], want[1:] if ok else None)):
       try:
-        got = mro_lib.MROMerge([list(r) for r in rows])
+        got = _row_merge(mro_lib, rows)
       except mro_lib.MROError:
         got = None
       if not ok and got is not None:
@@ -490,6 +490,19 @@ def _pure_fails(hier):
   return _PURE_MEMO[hier]
 
 
+def _row_merge(mro_lib, rows):
+  """The row-level pipeline of compute_mro / _ComputeMRO: duplicate direct bases, then the C3 merge.
+
+  MROMerge's own contract (pinned by upstream's mro_test) de-duplicates every row, so a repeated
+  direct base is the callers' business; they share mro.CheckDuplicateBases (last row = direct bases).
+  """
+  rows = [list(r) for r in rows]
+  check = getattr(mro_lib, "CheckDuplicateBases", None)
+  if check is not None:
+    check(rows[-1], rows)
+  return mro_lib.MROMerge(rows)
+
+
 def work_pure(item):
   """Route M on the whole subtree below one legal prefix, up to n classes."""
   from pytype.pytd import mro as mro_lib
@@ -519,7 +532,7 @@ def work_pure(item):
       wrong = False
       for rows, exp in (([[i]] + base_rows + [last], want), (base_rows + [last], want and want[1:])):
         try:
-          got = mro_lib.MROMerge([list(r) for r in rows])
+          got = _row_merge(mro_lib, rows)
         except mro_lib.MROError:
           got = None
         if got != exp:
